@@ -28,6 +28,8 @@ type ByteDir struct {
 	MaxRead int
 	// ShortWrite, if >0, makes Write accept at most that many bytes per call (n<len, nil).
 	ShortWrite int
+	// SlowWrite, if set, is called in the middle of every Write (see Write).
+	SlowWrite func()
 	// ReadLog records every successful underlying Read as (offset, n).
 	ReadLog [][2]int
 	// EndErr is the terminal error the reader was given (nil until then).
@@ -65,7 +67,21 @@ func (d *ByteDir) Write(b []byte) (int, error) {
 	if d.ShortWrite > 0 && n > d.ShortWrite {
 		n = d.ShortWrite
 	}
-	d.All = append(d.All, b[:n]...)
+	if d.SlowWrite != nil && n > 1 {
+		// a flow-controlled writer: the first half goes out, the writer waits (scheduling
+		// point, no pipe lock held), then the rest is taken from the CALLER'S buffer
+		h := n / 2
+		d.All = append(d.All, b[:h]...)
+		d.mu.Unlock()
+		d.SlowWrite()
+		d.mu.Lock()
+		if d.rerr != nil {
+			return h, d.rerr
+		}
+		d.All = append(d.All, b[h:n]...)
+	} else {
+		d.All = append(d.All, b[:n]...)
+	}
 	EventSeq++
 	d.WriteLog = append(d.WriteLog, [2]int{len(d.All), EventSeq})
 	return n, nil
